@@ -478,6 +478,26 @@ theorem C12_member_lookup_fuel (E : FEnv) (F F' i : Nat) (hle : F ≤ F')
     (hF : resolveFRef E F i ≠ .fuel) : resolveFRef E F' i = resolveFRef E F i :=
   resolveFRef_mono E F F' i hle hF
 
+/-- **Member lookup, the rejections.**  Under the same proviso, the path is rejected with
+error `e` **iff** the spec's failure rules derive `e`: the definition reached is not a field or
+is a virtual field that is not a plain renaming (`noncomposite`, located at the element naming
+it), the physical field behind it is an array (`arrayMember`), or its type has no member of
+that name (`missing`, located at the member name).  Together with `C12_member_lookup`: a
+field path is bound exactly when it is right and rejected exactly when it is wrong in one of
+these ways; the only other answers are the silent `bail` (the renamed reference is itself
+rejected — its own error is reported where it stands) and `crash` (internal inconsistency,
+never observed). -/
+theorem C12_member_lookup_rejects (E : FEnv) (F i : Nat) (hF : resolveFRef E F i ≠ .fuel)
+    (e : Err) : resolveFRef E F i = .err e ↔ PathRejected E i e := by
+  constructor
+  · exact (member_fail_sound E F).2.2 i e
+  · intro h
+    obtain ⟨f, hf⟩ := member_fail_complete E _ h
+    have h1 := resolveFRef_mono E F (max F f) i (Nat.le_max_left ..) hF
+    have h2 := resolveFRef_mono E f (max F f) i (Nat.le_max_right ..)
+      (by rw [hf]; exact fun h => by cases h)
+    rw [← h1, h2, hf]
+
 /-- The only errors the member loop reports are `Cannot access member of array`,
 `Cannot access member of noncomposite field` and `No candidate for`. -/
 theorem C12_member_lookup_errors (E : FEnv) (F i : Nat) (e : Err)
@@ -589,7 +609,7 @@ def exE : FEnv :=
       else if i = 2 then some ⟨ctxBar, [⟨"g", 7, 8⟩, ⟨"y", 9, 10⟩]⟩
       else some ⟨ctxBar, [⟨"h", 11, 12⟩, ⟨"x", 13, 14⟩]⟩ }
 
-/-- Non-vacuity of `C12_member_lookup` (+ `_fuel`, `_errors`): `g.x` through the renaming field
+/-- Non-vacuity of `C12_member_lookup` (+ `_rejects`, `_fuel`, `_errors`): `g.x` through the renaming field
 `g` is bound to `Foo.x` (enough fuel; with too little the answer is the distinct `fuel`);
 `g.y` is `No candidate for 'y'`, `h.x` (`h` an arithmetic virtual field) is noncomposite. -/
 example :
